@@ -2,7 +2,7 @@
 (* C12 / C13 on the specification: the implementation-shaped recurrence constructor and iterator (ImplRec.tla)
    yield the series the property describes, for anchors at month ends, leap days, day 366 and week 53 in all three
    representations, exact and month/year intervals, n = 1..5 and unbounded, the three notations, four modes. *)
-EXTENDS ImplRec
+EXTENDS ImplRec, Json
 MkP(mm, rep, y, mo, d, sod, z) ==
   LET dt == DateOf(mm, rep, DayNumCal(mm, y, mo, d)) IN
   [rep |-> rep, y |-> dt[1], a |-> dt[2], b |-> dt[3], prec |-> "hms", hh |-> sod \div 3600, mi |-> (sod % 3600) \div 60,
@@ -38,6 +38,9 @@ FirstAfterAgrees ==
           res == FirstAfterImpl(p)
       IN IF later = {} THEN ~res[1]
          ELSE res[1] /\ Inst(m, res[2]) = Inst(m, out[CHOOSE i \in later : \A j \in later : i <= j])
+EmitGen == pc = "new" /\ out1 = << >> /\ sh = NoShift =>
+             PrintT(<<"GEN", ToJson(<<m, inp.fmt, inp.n, inp.a.rep, inp.a.y, inp.a.a, inp.a.b, inp.d.y, inp.d.mo, inp.d.d, inp.d.h>>)>>)
+OnlyInit == pc = "new"
 Off == FALSE
 On == TRUE
 AllIv == ExactIv \cup NominalIv \cup ZeroIv
